@@ -601,6 +601,14 @@ var pwClasses = []pwClass{
 	{"padprefix", func(e *common.Env) string { return "(" }},          // 0x28 is the first byte of the padding string
 }
 
+// families of candidate passwords outside PDFDocEncoding and/or rejected by SASLprep
+var unencodable = [][2]string{
+	{"cjk", "パスワード"}, {"emoji", "pw😀"}, {"nul", "bad\x00ctl"}, {"ctl", "a\x01b\x1fc"}, {"del", "x\x7fy"},
+	{"c1", "a\u009fb"}, {"shy", "a\u00adb"}, {"bidi-override", "a\u202eb"}, {"bidi-mixed", "abc\u05d0"},
+	{"unassigned", "a\u0378b"}, {"private", "a\ue000b"}, {"nonchar", "a\ufffeb"}, {"invalid-utf8", "a\xff\xfeb"},
+	{"lone-surrogate-bytes", "a\xed\xa0\x80b"}, {"raw-9f", "a\x9fb"}, {"raw-ad", "\xad"}, {"tag", "a\U000e0001b"},
+}
+
 // candidates returns passwords to try against a document written with (user, owner):
 // label -> password.  "same" candidates coincide with the user password after preparation for
 // some revisions; the oracle decides by comparing prepared forms, not by label.
@@ -644,6 +652,16 @@ func candidates(e *common.Env, cfg config) []([2]string) {
 		}
 	}
 	add("wrong", asciiN(e, 1+e.Rand.IntN(10)))
+	// candidates from families the password preparation may be undefined on (which ones are depends on the revision)
+	add("unenc-cjk", "日本語")
+	for k := 0; k < 3; k++ {
+		f := unencodable[e.Rand.IntN(len(unencodable))]
+		v := f[1]
+		if cfg.user != "" && e.Rand.IntN(2) == 0 {
+			v = cfg.user + v // the right password with something unencodable attached
+		}
+		add("unenc-"+f[0], v)
+	}
 	if e.Rand.IntN(4) == 0 {
 		// equal to the user password after SASLprep (soft hyphen is mapped to nothing), not PDFDocEncodable
 		add("u+shy", cfg.user+"­")
@@ -826,24 +844,13 @@ func (rn *run) checkDocument(cfg config) {
 		key := fmt.Sprintf("R%d|%s|%s|%s|%d|%v|%v", R, cfg.version, label, clip(pw), cfg.perm, cfg.plainMeta, cfg.human)
 		r, err := open(doc, pw)
 		if !ok {
-			// outside the domain of the preparation: not quantified over; recorded as a diagnostic
-			out := "opened"
-			if err != nil {
-				out = "rejected"
-				var ae *pdf.AuthenticationError
-				if errors.As(err, &ae) {
-					out = "auth-error"
-				}
-			}
-			if emptyUser || emptyOwner {
-				out += "(empty opens)"
-			}
-			rn.outside[fmt.Sprintf("R%d %s", R, out)]++
-			e.Count(false, key, "outside-domain")
-			continue
+			// a candidate the preparation is not defined on (not in PDFDocEncoding for R <= 4, rejected by SASLprep
+			// for R >= 5): it is nobody's password, so it must fail like any other wrong password
+			rn.outside[fmt.Sprintf("R%d", R)]++
+			pp = nil
 		}
-		isOwner := bytes.Equal(pp, po)
-		isUser := bytes.Equal(pp, pu)
+		isOwner := ok && bytes.Equal(pp, po)
+		isUser := ok && bytes.Equal(pp, pu)
 		// expected outcome (the empty password is always tried first)
 		wantOK := emptyOwner || emptyUser || isOwner || isUser
 		wantPerm := closePerm(cfg.perm)
@@ -851,6 +858,9 @@ func (rn *run) checkDocument(cfg config) {
 			wantPerm = pdf.PermAll
 		}
 		class := fmt.Sprintf("R%d/%s", R, map[bool]string{true: "opens", false: "refused"}[wantOK])
+		if !ok {
+			class += "/unencodable"
+		}
 		if i := strings.Index(label, "straddle"); i >= 0 {
 			class += "/" + label[i:]
 		}
@@ -891,9 +901,13 @@ func (rn *run) checkDocument(cfg config) {
 			}
 			rn.r6model--
 		}
-		raw, _ := rawPrep(R, pw)
+		raw, rawOK := rawPrep(R, pw)
+		rawHex := common.Hex(raw)
+		if !rawOK {
+			rawHex = "!" // the preparation is undefined: the model gets None
+		}
 		id := rn.nextID("a")
-		line := fmt.Sprintf("%s A %s %d %s %d", id, handlerFields(doc), boolInt(pw != ""), common.Hex(raw), boolInt(isAES(doc)))
+		line := fmt.Sprintf("%s A %s %d %s %d", id, handlerFields(doc), boolInt(pw != ""), rawHex, boolInt(isAES(doc)))
 		var useItems []rawItem
 		if err == nil && !itemsDone {
 			items, err = rawItems(doc, r)
@@ -1163,6 +1177,103 @@ func readSched(rd io.Reader, cs []int) ([]byte, error) {
 		}
 		if err != nil {
 			return nil, err
+		}
+	}
+}
+
+// ---- operations on the Writer: the file identifier is changed after the key was derived from it ------------
+
+// idOps: GetMeta().ID is replaced / cleared / shortened between NewWriter and Close on encrypted writers of every
+// version.  Either Close refuses, or the file must open with both passwords and give back its content.
+func (rn *run) idOps() {
+	e := rn.e
+	muts := []string{"none", "replace-first", "replace-both", "replace-second", "clear", "empty-slice", "shorten-first", "one-element", "swap", "same-bytes-new-slice"}
+	for _, v := range versions {
+		for _, mut := range muts {
+			for _, given := range []bool{false, true} {
+				if !e.Thorough && e.Rand.IntN(2) == 0 && mut != "replace-first" && mut != "clear" {
+					continue
+				}
+				opt := &pdf.WriterOptions{UserPassword: "u-" + asciiN(e, 3), OwnerPassword: "o-" + asciiN(e, 3), UserPermissions: pdf.PermCopy}
+				if given {
+					opt.ID = [][]byte{randBytes(e, 16), randBytes(e, 16)}
+				}
+				buf := &bytes.Buffer{}
+				w, err := pdf.NewWriter(buf, v, opt)
+				if err != nil {
+					e.Fail("writer-refuses", err.Error(), fmt.Sprint(v))
+					continue
+				}
+				m := marker(e, "idop")
+				ref := w.Alloc()
+				w.Put(ref, pdf.Dict{"S": pdf.String(append([]byte{}, m...))})
+				pages := w.Alloc()
+				w.Put(pages, pdf.Dict{"Type": pdf.Name("Pages"), "Kids": pdf.Array{}, "Count": pdf.Integer(0)})
+				w.GetMeta().Catalog.Pages = pages
+				meta := w.GetMeta()
+				switch mut {
+				case "replace-first":
+					meta.ID = [][]byte{randBytes(e, 16), meta.ID[1]}
+				case "replace-both":
+					meta.ID = [][]byte{randBytes(e, 16), randBytes(e, 16)}
+				case "replace-second":
+					meta.ID = [][]byte{meta.ID[0], randBytes(e, 16)}
+				case "clear":
+					meta.ID = nil
+				case "empty-slice":
+					meta.ID = [][]byte{}
+				case "shorten-first":
+					meta.ID = [][]byte{meta.ID[0][:8], meta.ID[1]}
+				case "one-element":
+					meta.ID = meta.ID[:1]
+				case "swap":
+					meta.ID = [][]byte{meta.ID[1], meta.ID[0]}
+				case "same-bytes-new-slice":
+					meta.ID = [][]byte{append([]byte{}, meta.ID[0]...), append([]byte{}, meta.ID[1]...)}
+				}
+				info := map[string]any{"version": fmt.Sprint(v), "mutation": mut, "id_given": given}
+				key := fmt.Sprintf("idop|%v|%s|%v", v, mut, given)
+				closeErr, panicked := func() (err error, p any) {
+					defer func() { p = recover() }()
+					return w.Close(), nil
+				}()
+				if panicked != nil {
+					sig := "close-panics"
+					if mut == "one-element" {
+						sig = "close-panics-one-element-id"
+					}
+					e.Fail(sig, fmt.Sprintf("Writer.Close panics after GetMeta().ID was changed (%s): %v", mut, panicked), info)
+					e.Count(true, key, "id-ops/panic")
+					continue
+				}
+				if err := closeErr; err != nil {
+					if mut == "none" || mut == "same-bytes-new-slice" {
+						e.Fail("close-refuses-unchanged-id", fmt.Sprintf("Close refuses although the ID is unchanged: %v", err), info)
+					}
+					e.Count(true, key, "id-ops/refused")
+					continue
+				}
+				data := buf.Bytes()
+				good := true
+				for _, pw := range []string{opt.UserPassword, opt.OwnerPassword} {
+					r, err := pdf.NewReader(bytes.NewReader(data), int64(len(data)), &pdf.ReaderOptions{Password: pw})
+					if err != nil {
+						e.Fail("id-changed-before-close", fmt.Sprintf("Close accepted a changed file identifier but the file cannot be opened with its password: %v", err), info)
+						good = false
+						break
+					}
+					obj, _ := r.Get(ref, true)
+					d, _ := obj.(pdf.Dict)
+					if got, _ := d["S"].(pdf.String); !bytes.Equal(got, m) {
+						e.Fail("id-changed-before-close", "Close accepted a changed file identifier but strings do not decrypt", info)
+						good = false
+						break
+					}
+				}
+				if good {
+					e.Count(true, key, "id-ops/accepted-and-readable")
+				}
+			}
 		}
 	}
 }
@@ -1526,6 +1637,7 @@ func main() {
 	rn := &run{e: e, r6model: e.Pick(4, 30), emdTamper: e.Pick(1, 6), r6parse: e.Pick(1, 4), outside: map[string]int{}}
 	rn.primitives()
 	rn.perms()
+	rn.idOps()
 
 	perm := 0
 	nextPerm := func() pdf.Perm { perm = (perm + 37) % 128; return pdf.Perm(perm) }
